@@ -33,20 +33,31 @@ Lemma c01_pins_merged_witness :
   match w_c01_pins_override_run 100 with CNoCand _ nm _ => nm | COk _ _ => "<ok>" | CFatal _ => "<fatal>" end = "c".
 Proof. exact w_c01_pins_override_ok. Qed.
 
-(* C02: closure fails - a successful run leaves an input's project unsolved and un-emitted *)
-Lemma c02_unsolved_witness :
+(* C02 (after /repo 88940d5): the former counter-example to closure - a successful run that left an input's project
+   unsolved and un-emitted - now fails honestly on the requirement that cannot be met (a>=2.1) *)
+Lemma c02_unsolved_now_fails_witness :
   match w_c02_unsolved_in_output_run 100 with
-  | COk g roots => (pin_of g "a", emitted_keys g roots, closed_b g roots)
-  | _ => (None, [], true) end = (Some None, ["b"], false).
-Proof. vm_compute. reflexivity. Qed.
+  | CNoCand _ nm sp => (nm, List.length sp) | COk _ _ => ("<ok>", 0) | CFatal _ => ("<fatal>", 0) end = ("a", 1).
+Proof. exact w_c02_unsolved_in_output_ok. Qed.
 
-(* C08: an abandoned requirer (c, in the uncollected cycle c <-> d) is named in the annotation of a *)
-Lemma c08_stale_requirer_witness :
+(* C02: minimality fails - a link kept from an abandoned candidate makes a project nobody requires part of the output,
+   and an extra requested only by a constraint-reachable project pulls its dependencies into the output *)
+Lemma c02_leftover_witness :
+  match w_c02_leftover_extra_dependency_run 100 with
+  | COk g roots => (emitted_keys g roots, pin_of g "c", minimal_b w_c02_leftover_extra_dependency_env g roots)
+  | _ => ([], None, true) end = (["f"; "b"; "c"; "a"], Some (Some "1.1"), false).
+Proof. exact w_c02_leftover_extra_dependency_ok. Qed.
+Lemma c02_constraint_extra_leak_witness :
+  match w_c02_constraint_extra_leak_run 100 with
+  | COk g roots => (emitted_keys g roots, minimal_b w_c02_constraint_extra_leak_env g roots)
+  | _ => ([], true) end = (["b"; "a"], false).
+Proof. exact w_c02_constraint_extra_leak_ok. Qed.
+
+(* C08 (after /repo 88940d5): the input whose annotation named the abandoned requirer c now fails honestly on e<=2.0rc1 *)
+Lemma c08_stale_requirer_now_fails_witness :
   match w_c08_stale_requirer_run 100 with
-  | COk g roots => (emitted_keys g roots, explain_sources w_c08_stale_requirer_env g "a",
-                    explain_honest_b w_c08_stale_requirer_env g roots)
-  | _ => ([], [], true) end = (["a"], ["in0.txt"; "c"], false).
-Proof. vm_compute. reflexivity. Qed.
+  | CNoCand _ nm sp => (nm, List.length sp) | COk _ _ => ("<ok>", 0) | CFatal _ => ("<fatal>", 0) end = ("e", 1).
+Proof. exact w_c08_stale_requirer_ok. Qed.
 
 (* C09: internal errors escape, and the recursion is unbounded *)
 Lemma c09_internal_errors_witness :
